@@ -17,6 +17,8 @@ K="${1:-0}"; N="${2:-1}"; I=0
 for D in seeded/C*/; do
     I=$((I+1)); [ $((I % N)) -eq "$K" ] || continue
     ID=$(basename "$D"); P=${ID%%-*}
+    # optional restriction to some properties: SWEEP_PROPS="C06 C17"
+    if [ -n "$SWEEP_PROPS" ]; then case " $SWEEP_PROPS " in *" $P "*) ;; *) continue ;; esac; fi
     git -C "$REPO" checkout -q -- . 
     if ! git -C "$REPO" apply "$ROOT/$D/patch.diff" 2>/dev/null; then echo "$ID APPLY-FAILED" >> seeded_results.txt; continue; fi
     if [ -n "$VERIF_SWEEP_LEAN" ] && { [ "$P" = C18 ] || [ "$P" = C19 ]; }; then
